@@ -3,6 +3,6 @@ CONSTANTS
   Datums <- MCDatums
   Txs <- MCTxs
 INIT Init
-NEXT Next
+NEXT MCNext
 INVARIANTS IntsExact IntClass MinimalBytes DatumPreserved TxPreserved
 CHECK_DEADLOCK FALSE
